@@ -32,10 +32,10 @@ RW.preload()
 ID = "C15"
 TITLE = "Successful resolutions produce dependency-closed, slot-consistent plans"
 LEVEL = "exploration"
-TECHNIQUE = "random repo/vdb universes resolved end to end; plan validated by an independent closure/slot/blocker checker"
+TECHNIQUE = "seeded random repo/vdb universes resolved end to end; plan validated by an independent closure/slot/blocker checker; step/recursion bounds for non-termination"
 DESIGN_REF = "DESIGN.md §3 C15"
 LEVEL_TEXT = (
-    "Generated-input search: hypothesis universes of FakePkg repositories and installed databases are resolved with "
+    "Generated-input search: seeded random universes of FakePkg repositories and installed databases are resolved with "
     "the resolvers pmerge builds; every successful plan is validated against the property's four conditions by a "
     "reference model that shares no code with the resolver; construction/resolution exceptions and non-termination "
     "(deterministic step bound) are reported as crash/hang buckets."
